@@ -6,5 +6,6 @@ CONSTANTS
   ROffsets <- MC_RO
   AOffsets <- MC_AO
   Emit = FALSE
+  ClampNegative = TRUE
 INVARIANT SliceOK
 CHECK_DEADLOCK FALSE
